@@ -28,6 +28,12 @@ def corpus(ctx, rnd, lb):
     for i in range(2 if q else 30):
         data, plain, o = dcorpus.synth_valid(rnd, nstreams=rnd.randint(2, 5), trailing=b'')
         out.append(('synth-unaligned', data))
+    # layouts with empty streams (no blocks) next to the corrupted one
+    empty = bz2.compress(b'', 9)
+    small = [bz2.compress(gen.textlike(rnd, 300 + 50 * i), rnd.randint(1, 9)) for i in range(3)]
+    for name, parts in (('A+E', [small[0], empty]), ('A+E+B', [small[0], empty, small[1]]), ('E+A+B', [empty, small[0], small[1]]),
+                        ('B+E+E+A', [small[1], empty, empty, small[2]])):
+        out.append(('layout-' + name, b''.join(parts)))
     # header straddling input blocks is covered by small IN_GRANUL (H2)
     return out
 
